@@ -438,8 +438,17 @@ def rule_e(rep: Report) -> None:
 	opt = rm.func('ASTSerializer._for_expr_opt')
 	opt_member = next((n.attr for n in ast.walk(opt.node) if isinstance(n, ast.Attribute) and isinstance(n.value, ast.Name) and n.value.id == 'Repeators'), None)
 
+	# the function is read with `return self._helper(...)` replaced by the helper's body (the zero-match dispatch may live in a private helper)
+	import types
+	from vlib.match import merged_function
+	try:
+		fnode = merged_function(f)
+	except RecursionError:
+		fnode = fnode
+	if not any(isinstance(n, (ast.While, ast.For)) for n in fnode.body):
+		fnode = fnode
 	# locals assigned at the top level of the function before the loop: name -> expression over patterns.rep (limits, flags)
-	limits = {n.targets[0].id: n.value for n in f.node.body if isinstance(n, ast.Assign) and isinstance(n.targets[0], ast.Name)}
+	limits = {n.targets[0].id: n.value for n in fnode.body if isinstance(n, ast.Assign) and isinstance(n.targets[0], ast.Name)}
 
 	def ev(e: ast.AST, member: str):
 		"""evaluate a test over patterns.rep for `member`; None if it involves anything else"""
@@ -466,20 +475,24 @@ def rule_e(rep: Report) -> None:
 			return True if True in vs else (False if all(v is False for v in vs) else None)
 		return None
 
-	loop = next((n for n in f.node.body if isinstance(n, (ast.While, ast.For))), None)
+	loop = next((n for n in fnode.body if isinstance(n, (ast.While, ast.For))), None)
 	# the repetition counter: the local incremented by one inside the loop
 	counter = next((unparse(n.target) for n in ast.walk(loop) if isinstance(n, ast.AugAssign) and isinstance(n.op, ast.Add) and isinstance(n.value, ast.Constant) and n.value.value == 1), None) if loop is not None else None
-	zero = next((n for n in f.node.body if isinstance(n, ast.If) and counter is not None and unparse(n.test) in (f'{counter} == 0', f'not {counter}', f'{counter} < 1', f'0 == {counter}')), None)
+	if counter is None and loop is not None:
+		# a flag instead of a count: False in front of the loop, set to True after a successful match
+		flags = [n.targets[0].id for n in ast.walk(loop) if isinstance(n, ast.Assign) and isinstance(n.targets[0], ast.Name) and isinstance(n.value, ast.Constant) and n.value.value is True]
+		counter = next((x for x in flags if any(isinstance(n, ast.Assign) and isinstance(n.targets[0], ast.Name) and n.targets[0].id == x and isinstance(n.value, ast.Constant) and n.value.value is False for n in fnode.body)), None)
+	zero = next((n for n in fnode.body if isinstance(n, ast.If) and counter is not None and unparse(n.test) in (f'{counter} == 0', f'not {counter}', f'{counter} < 1', f'0 == {counter}')), None)
 	if zero is None and counter is not None:
 		# the inverse form: `if <count> > 0: return ...` and the zero case as the rest of the function
-		for i_, n in enumerate(f.node.body):
+		for i_, n in enumerate(fnode.body):
 			if isinstance(n, ast.If) and unparse(n.test) in (f'{counter} > 0', f'{counter}', f'{counter} >= 1', f'{counter} != 0', f'0 < {counter}') and not n.orelse and n.body and isinstance(n.body[-1], ast.Return):
-				zero = ast.If(test=n.test, body=f.node.body[i_ + 1:], orelse=[])
+				zero = ast.If(test=n.test, body=fnode.body[i_ + 1:], orelse=[])
 	if loop is None or zero is None:
 		r.skip('shape', f.where, '_match_repeat no longer has the shape `loop: match, count; ... if <count> == 0: ...`')
 		r.floor = 1
 		return
-	rep_expr = next((unparse(e.left) for e in ast.walk(f.node) if isinstance(e, ast.Compare) and isinstance(e.left, ast.Attribute) and e.left.attr == 'rep'), 'patterns.rep')
+	rep_expr = next((unparse(e.left) for e in ast.walk(fnode) if isinstance(e, ast.Compare) and isinstance(e.left, ast.Attribute) and e.left.attr == 'rep'), 'patterns.rep')
 	found = counter
 
 	def max_reps(member: str):
@@ -534,7 +547,7 @@ def rule_e(rep: Report) -> None:
 		return walk(zero.body)
 
 	from vlib.match import atoms
-	before = f.node.body[:f.node.body.index(loop)]
+	before = fnode.body[:fnode.body.index(loop)]
 	early = [x for st in before for x in ast.walk(st) if isinstance(x, ast.Return) and x.value is not None]
 	for member, sym in members.items():
 		if member == 'NoRepeat' or sym is None:
@@ -555,7 +568,7 @@ def rule_e(rep: Report) -> None:
 		# zero-match dispatch returns — `[x]` without its placeholder shifts every later child of the tree by one
 		for ret in early:
 			reach = True
-			for a_, pol_ in atoms(f.node, ret):
+			for a_, pol_ in atoms(fnode, ret):
 				t_ = ev(a_, member)
 				if t_ is not None and t_ != pol_:
 					reach = False
